@@ -22,6 +22,7 @@ def main(argv=None):
     import warnings
     warnings.filterwarnings('ignore')
     pid = args.pid.upper()
+    import ixai  # noqa: F401  (imported once in the parent; workers are forked)
     try:
         if pid == 'SELFTEST':
             from . import selftest
